@@ -231,4 +231,5 @@ func runC06(e *Engine, r *Report) {
 	ruleSingleNodeQuorum(e, r)
 	ruleRaftPredicates(e, r, "hasCommittedEntryAtCurrentTerm")
 	ruleReadyKeyedByCtx(e, r)
+	borrow(e, r, "C03", "GD-campaign-pred")
 }
